@@ -2,6 +2,7 @@ package simcheck
 
 import (
 	"fmt"
+	"github.com/cosmos72/gomacro/gls"
 	"go/token"
 	"testing"
 	"time"
@@ -152,12 +153,17 @@ func runC13(t *testing.T, ch *sim.Choices, tier string) (o Outcome) {
 		return fast.DebugOpContinue
 	})
 	e.ir.SetDebugger(dbg)
+	mainG := gls.GoID()
+	mainRun := e.ir.VerifEnv().Run // the runtime record Interp.Interrupt flags: not necessarily the record of the frame executing now
 	hs.Stmt = func(env *fast.Env, pos token.Pos) {
+		if gls.GoID() != mainG {
+			return // a goroutine started by the target: only the evaluating goroutine is interrupted
+		}
 		nstmt++
 		if kind != c13Hook && kind != c13Between && (nstmt == k || (kind == c13Double && nstmt == k+3)) {
 			deliver()
 		}
-		if deliveredAt >= 0 && servedAfter < 0 && env.Run.Signals.Async == base.SigNone {
+		if deliveredAt >= 0 && servedAfter < 0 && mainRun.Signals.Async == base.SigNone {
 			// the executor has taken the interrupt: statements executed from here on are the
 			// deferred calls Go semantics require to run while the interrupt panic unwinds
 			servedAfter = nstmt - deliveredAt
